@@ -36,6 +36,9 @@ pub struct Case {
   pub stdout_inside: bool,
   /// a unix socket and a character device are placed in the root directory (they are not regular files: never listed)
   pub specials: bool,
+  /// imdl runs as an unprivileged user and the first ordinary sub-directory of the root may not be listed by it: the files
+  /// below it cannot be enumerated, so the command must fail rather than write a torrent that leaves them out
+  pub unlistable: bool,
 }
 
 fn t_json(t: &T) -> Value {
@@ -63,7 +66,7 @@ fn t_from(v: &Value) -> Option<T> {
 
 impl Case {
   fn to_json(&self) -> Value {
-    json!({"root": t_json(&self.root), "ignore": self.ignore, "hidden": self.hidden, "junk": self.junk, "follow": self.follow, "globs": self.globs, "specs": self.specs, "shuffle_seed": self.shuffle_seed, "specials": self.specials, "root_spelling": self.root_arg(), "file_with_non_utf8_name": self.bad_name, "stdout_appended_to_a_file_in_the_tree": self.stdout_inside,
+    json!({"root": t_json(&self.root), "ignore": self.ignore, "hidden": self.hidden, "junk": self.junk, "follow": self.follow, "globs": self.globs, "specs": self.specs, "shuffle_seed": self.shuffle_seed, "specials": self.specials, "root_spelling": self.root_arg(), "file_with_non_utf8_name": self.bad_name, "stdout_appended_to_a_file_in_the_tree": self.stdout_inside, "run_unprivileged_with_an_unlistable_subdirectory": self.unlistable,
            "other_options": self.noise()})
   }
   /// other options of create riding along (a function of the case's seed, so that a replay repeats them);
@@ -77,6 +80,16 @@ impl Case {
       (5, T::Dir(_) | T::LinkDir(_)) => "<ABS>/root/.",
       (3..=5, _) => "<ABS>/root",
       _ => "root",
+    }
+  }
+  /// the sub-directory made unlistable, when the case asks for one, the tree has one and privileges can be dropped here
+  fn unlistable_dir(&self) -> Option<&str> {
+    if !self.unlistable || self.stdout_inside || self.bad_name || !crate::run::can_drop_privileges() {
+      return None;
+    }
+    match &self.root {
+      T::Dir(es) => es.iter().find(|(n, t)| matches!(t, T::Dir(_)) && !n.starts_with('.')).map(|(n, _)| n.as_str()),
+      _ => None,
     }
   }
   fn noise(&self) -> Vec<String> {
@@ -97,6 +110,7 @@ impl Case {
       bad_name: v.get("file_with_non_utf8_name").and_then(|b| b.as_bool()).unwrap_or(false),
       stdout_inside: v.get("stdout_appended_to_a_file_in_the_tree").and_then(|b| b.as_bool()).unwrap_or(false),
       specials: v.get("specials").and_then(|b| b.as_bool()).unwrap_or(false),
+      unlistable: v.get("run_unprivileged_with_an_unlistable_subdirectory").and_then(|b| b.as_bool()).unwrap_or(false),
     })
   }
 }
@@ -180,6 +194,7 @@ fn gen(rng: &mut Rng) -> Case {
     bad_name: globs.is_empty() && rng.chance(1, 12),
     stdout_inside: rng.chance(1, 10),
     specials: rng.chance(1, 4),
+    unlistable: rng.chance(1, 10),
   }
 }
 
@@ -484,6 +499,12 @@ fn observe(ctx: &Ctx, c: &Case) -> Obs {
   }
   args.extend(c.noise());
   let mut cmd = Cmd::args_owned(&ctx.imdl, args).cwd(&sb.root);
+  if let Some(dir) = c.unlistable_dir() {
+    use std::os::unix::fs::PermissionsExt;
+    let _ = std::fs::set_permissions(&sb.root, std::fs::Permissions::from_mode(0o777));
+    let _ = std::fs::set_permissions(sb.path(&format!("root/{dir}")), std::fs::Permissions::from_mode(0o000));
+    cmd = cmd.unprivileged();
+  }
   if c.stdout_inside && matches!(c.root, T::Dir(_)) {
     cmd = cmd.stdout_to(&sb.path("root/zz-run.log"));
   }
@@ -508,7 +529,7 @@ pub fn run(ctx: &Ctx) -> Report {
      (acyclic, unbroken, also as the root), equal sizes, names where component-wise and string order differ (a/b vs a.b, a b, a-b); all 8 flag combinations, 0-3 globs with `!`, 0-3 sort specs; \
      observable: info.files[].path order and exit status; non-trivial = directory root with >= 2 entries and a glob, sort spec or symlink; distinct by case hash",
   );
-  report.rule.push_str("; trees on a memory file system (listing order = creation order); ignore files inside the tree and a per-user ignore file outside it without --ignore; hard links; links sharing a target or pointing at a sibling; `.DS_Store`, names beginning with `!`, names with commas; empty globs, `!!a`, alternatives `{a,b}`, repeated globs (A,B,A); the root spelled `root/` and `root/.`, relative and from the top of the file system; a file whose name is not UTF-8 (without globs: the command must fail)");
+  report.rule.push_str("; trees on a memory file system (listing order = creation order); ignore files inside the tree and a per-user ignore file outside it without --ignore; hard links; links sharing a target or pointing at a sibling; `.DS_Store`, names beginning with `!`, names with commas; empty globs, `!!a`, alternatives `{a,b}`, repeated globs (A,B,A); the root spelled `root/` and `root/.`, relative and from the top of the file system; imdl run as an unprivileged user with a sub-directory it may not list (failing is fine, leaving files out is not); a file whose name is not UTF-8 (without globs: the command must fail)");
   report.correspondences.push("C06.files: info.files order written by `imdl torrent create` = Imdlv.Walker.files".into());
   let cases: Vec<Case> = match super::replay_cases(ctx) {
     Some(rc) => rc.iter().filter_map(Case::from_json).collect(),
@@ -545,7 +566,12 @@ pub fn run(ctx: &Ctx) -> Report {
         }
       }
       Ok(w) => {
-        if o.code != Some(0) {
+        if c.unlistable_dir().is_some() && o.code == Some(1) {
+          // the walk could not enumerate the tree and said so: nothing is listed wrongly
+          report.hit("unlistable-subdirectory:refused");
+          report.out_of_model += 1;
+          continue;
+        } else if o.code != Some(0) {
           pf = Some(format!("create failed: {}", o.stderr));
         } else if &o.listed != w {
           pf = Some(format!("torrent lists {:?}, documented rules give {:?}", o.listed, w));
